@@ -35,8 +35,16 @@ def check(run, args):
     t = os.path.join(run.scratch, "t_free.ndjson")
     st = os.path.join(run.scratch, "s_free.json")
     r = run.harness_run(["conc-free", t, st, os.path.join(d, "table.json"), "32", "40" if thorough else "6"],
-                        race=True, ok_codes=(0, 66), env={"GORACE": "halt_on_error=0 exitcode=66"})
-    raced = r.returncode == 66 or "DATA RACE" in r.stderr
+                        race=True, ok_codes=(0, 66, 2), env={"GORACE": "halt_on_error=0 exitcode=66"})
+    # unsynchronised map access by two goroutines is detected by the Go runtime itself and kills the process (exit 2):
+    # that IS a data race between goroutines that share no Code value, observed on the real library
+    killed = r.returncode == 2 and ("fatal error: concurrent map" in r.stderr)
+    if r.returncode == 2 and not killed:
+        raise Machinery("harness conc-free failed (2):\n" + r.stderr[-3000:])
+    raced = r.returncode == 66 or "DATA RACE" in r.stderr or killed
+    if killed:
+        open(t, "w").close()
+        json.dump(dict(stats=dict(traces=0, events=0, process_killed_by_concurrent_map_access=1), samples=[]), open(st, "w"))
     if not os.path.exists(t):
         raise Machinery("race run produced no trace:\n" + r.stderr[-2000:])
     traces.append(t)
